@@ -70,7 +70,29 @@ func c12ReplayPicker(sched []int) c12Picker {
 // priorities, the highest runnable one runs; at a few drawn steps the running thread drops to the
 // lowest priority), i.e. few pre-emptions at drawn places.
 func c12RapidPicker(rt *rapid.T, nthreads int, horizon int) (c12Picker, string) {
-	mode := rapid.IntRange(0, 3).Draw(rt, "schedmode")
+	mode := rapid.IntRange(0, 4).Draw(rt, "schedmode")
+	if mode == 4 {
+		// coarse: run a drawn thread until it reports a drawn protocol point (or finishes), repeat
+		cur, target, ran := -1, "", false
+		return func(s *hx.Sched, runnable []int) int {
+			ok := false
+			for _, r := range runnable {
+				if r == cur {
+					ok = true
+				}
+			}
+			if !ok || (ran && s.Last(cur) == target) {
+				cur = runnable[0]
+				if len(runnable) > 1 {
+					cur = runnable[rapid.IntRange(0, len(runnable)-1).Draw(rt, "cthread")]
+				}
+				target = rapid.SampledFrom(c12CoarseTargets).Draw(rt, "ctarget")
+				ran = false
+			}
+			ran = true
+			return cur
+		}, "sched-coarse"
+	}
 	if mode <= 1 {
 		return func(s *hx.Sched, runnable []int) int {
 			if len(runnable) == 1 {
@@ -85,7 +107,7 @@ func c12RapidPicker(rt *rapid.T, nthreads int, horizon int) (c12Picker, string) 
 	for i, t := range perm {
 		prio[t] = nthreads - i
 	}
-	nchg := rapid.IntRange(1, 2+mode).Draw(rt, "nchange")
+	nchg := rapid.IntRange(1, 1+mode).Draw(rt, "nchange")
 	chg := map[int]bool{}
 	for i := 0; i < nchg; i++ {
 		chg[rapid.IntRange(1, horizon).Draw(rt, "changeat")] = true
@@ -113,6 +135,10 @@ func c12RapidPicker(rt *rapid.T, nthreads int, horizon int) (c12Picker, string) 
 		return best
 	}, "sched-pct"
 }
+
+// c12CoarseTargets: the protocol points at which the coarse mode pre-empts.
+var c12CoarseTargets = []string{"y:unlock.shared.beforeDelete", "y:dotx.locked", "y:dotx.beforeWrite", "y:critical",
+	"y:dotx.beforePublish", "y:trylock.shared.beforeAdd", "y:trylock.first.beforeAdd", "y:unlock.key", "done"}
 
 func c12Iota(n int) []int {
 	out := make([]int, n)
